@@ -35,7 +35,7 @@ RULE = (
 REAL = ["place_objects", "apply_params", "Source.update_E/update_H (static_amplitude_factor)", "forward", "run_fdtd", "custom_fdtd_forward", "all detector classes"]
 STUB = ["per-cell material arrays are written into the placed ArrayContainer", "tqdm disabled"]
 ASSUMPTIONS = [
-    "float64; criterion 1e-10 relative to max(|combo|, sum_i |a_i| max|basis_i| + |b| max|basis_0|) per array (guards against cancellation)",
+    "float64; criterion 1e-10 relative to max(|combo|, sum_i |a_i| max|basis_i| + |b| max|basis_0|) per array (guards against cancellation); arrays below 1e-3 of the field maximum are judged on that absolute scale",
     "plane sources sit on exactly isotropic planes",
     "quadratic records are compared only between runs that differ by one common factor, as the statement says",
 ]
@@ -81,7 +81,7 @@ def _lin(terms):
     return val, scale
 
 
-def _cmp(mon, monitor, t, want, scale, got, **extra):
+def _cmp(mon, monitor, t, want, scale, got, floors=None, **extra):
     from fdsim import driver as dr
 
     worst, wk = 0.0, ""
@@ -89,7 +89,8 @@ def _cmp(mon, monitor, t, want, scale, got, **extra):
         if k not in want or k not in got:
             worst, wk = float("inf"), k
             break
-        s = max(scale.get(k, 0.0), float(np.max(np.abs(got[k]))) if got[k].size else 0.0)
+        fl = floors.get(k, 0.0) if isinstance(floors, dict) else (floors or 0.0)
+        s = max(scale.get(k, 0.0), float(np.max(np.abs(got[k]))) if got[k].size else 0.0, fl)
         r = dr.rel_diff(want[k], got[k], s if s > 0 else None)
         if r > worst:
             worst, wk = r, k
@@ -134,25 +135,29 @@ def execute(spec):
     coeff = a + ([b] if has_init else [])
     states = [st.state0(x) for st, x in zip(steppers, arrays)]
     kind = {d["name"]: d["kind"] for d in spec["detectors"]}
-    fc = None
+    fc, g_run = None, 0.0
     for t in range(T):
         states = [st.fwd(s) for st, s in zip(steppers, states)]
         rp.count_steps(stats, len(fam), scenes[0].dt)
         fs = [dr.fields_np(s) for s in states]
         rs = [dr.detectors_np(s) for s in states]
         fc, fsc = fs[-2], fs[-1]
+        # field scale of the combination (terms included, so that cancelling terms do not shrink it)
+        g = max(rp.field_scale(fc), sum(abs(x) * rp.field_scale(f) for x, f in zip(coeff, fs)))
+        g_run = max(g_run, g)
         want, scale = _lin(list(zip(coeff, fs[: len(coeff)])))
-        _cmp(mon, "fields_superposition", t, want, scale, fc)
+        _cmp(mon, "fields_superposition", t, want, scale, fc, rp.FLOOR * g)
         lin = [{k: v for k, v in r.items() if kind[k.split("/")[0]] in LINEAR} for r in rs]
         quad = [{k: v for k, v in r.items() if kind[k.split("/")[0]] not in LINEAR} for r in rs]
+        fl = rp.record_floors(spec, g_run, rs[-2])
         if lin[0]:
             want, scale = _lin(list(zip(coeff, lin[: len(coeff)])))
-            _cmp(mon, "linear_records_superposition", t, want, scale, lin[-2])
-        _cmp(mon, "fields_common_factor", t, {k: c * v for k, v in fc.items()}, {}, fsc)
+            _cmp(mon, "linear_records_superposition", t, want, scale, lin[-2], fl)
+        _cmp(mon, "fields_common_factor", t, {k: c * v for k, v in fc.items()}, {}, fsc, rp.FLOOR * g * abs(c))
         if lin[0]:
-            _cmp(mon, "linear_records_common_factor", t, {k: c * v for k, v in lin[-2].items()}, {}, lin[-1])
+            _cmp(mon, "linear_records_common_factor", t, {k: c * v for k, v in lin[-2].items()}, {}, lin[-1], {k: v * abs(c) for k, v in fl.items()})
         if quad[0]:
-            _cmp(mon, "quadratic_records_common_factor", t, {k: c * c * v for k, v in quad[-2].items()}, {}, quad[-1])
+            _cmp(mon, "quadratic_records_common_factor", t, {k: c * c * v for k, v in quad[-2].items()}, {}, quad[-1], {k: v * c * c for k, v in fl.items()})
     nontrivial = bool(np.max(np.abs(fc["E"])) > 0 or np.max(np.abs(fc["H"])) > 0)
     stats["probe_quadratic_nonzero"] = int(any(np.any(v != 0) for v in quad[-2].values())) if quad[0] else 0
     stats["probe_linear_nonzero"] = int(any(np.any(v != 0) for v in lin[-2].values())) if lin[0] else 0
